@@ -202,17 +202,20 @@ def combine_case(rnd, wd):
         n = rnd.randint(1, 5)
         ids = []
         with contextlib.redirect_stdout(io.StringIO()):
-            s = hmclab.Samples(fname, mode="w", overwrite=True)
-            for _ in range(n):
-                col = numpy.array([float(k * 8 + r) for r in range(h)]).reshape(-1, 1)
-                if rnd.random() < 0.3:
-                    col[rnd.randrange(h), 0] = float("nan")
-                    nan_ids.append(k)
-                s.append(col)
-                arrays.append(col)
-                ids.append(k)
-                k += 1
-            s.close()
+            try:
+                s = hmclab.Samples(fname, mode="w", overwrite=True)      # (over the part file of the previous case, whatever its height)
+                for _ in range(n):
+                    col = numpy.array([float(k * 8 + r) for r in range(h)]).reshape(-1, 1)
+                    if rnd.random() < 0.3:
+                        col[rnd.randrange(h), 0] = float("nan")
+                        nan_ids.append(k)
+                    s.append(col)
+                    arrays.append(col)
+                    ids.append(k)
+                    k += 1
+                s.close()
+            except Exception as e:  # noqa
+                return parts + [ids], nan_ids, [9997, type(e).__name__]
         parts.append(ids)
         files.append(fname)
     with contextlib.redirect_stdout(io.StringIO()):
@@ -225,6 +228,37 @@ def combine_case(rnd, wd):
         except BaseException as e:  # noqa
             got = [9998]
     return parts, nan_ids, got
+
+
+def overwrite_case(rnd, wd, j):
+    """A chain written over an existing samples file (overwrite=True) is that chain alone: same height or not, both back ends."""
+    import hmclab
+    out = []
+    be = ["h5", "npy"][j % 2]
+    fname = os.path.join(wd, f"over{j % 2}.{be}")
+    h1 = rnd.randint(2, 4)
+    h2 = h1 if rnd.random() < 0.7 else rnd.randint(2, 4)
+    n1, n2 = rnd.randint(1, 6), rnd.randint(1, 6)
+    try:
+        with contextlib.redirect_stdout(io.StringIO()):
+            for (h, n, off, ow) in ((h1, n1, 0.0, True), (h2, n2, 1000.0, True)):
+                s = hmclab.Samples(fname, mode="w", overwrite=ow)
+                cols = [numpy.array([off + 8.0 * c + r for r in range(h)]).reshape(-1, 1) for c in range(n)]
+                for cvec in cols:
+                    s.append(cvec)
+                s.close()
+            with hmclab.Samples(fname) as r:
+                arr = numpy.array(r.numpy)
+                widx = r.read_attribute("write_index") if hasattr(r, "read_attribute") else None
+    except Exception as e:  # noqa
+        return [(f"overwrite-raised-{be}", f"{n1} columns of height {h1}, then {n2} columns of height {h2} written over them with overwrite=True: {type(e).__name__}: {str(e)[:100]}")]
+    want = numpy.hstack(cols)
+    if arr.shape != want.shape or arr.tobytes() != want.tobytes():
+        out.append((f"overwrite-keeps-old-columns-{be}", f"{n1} columns of height {h1}, then {n2} columns of height {h2} written over them with overwrite=True: "
+                    f"the file reads back with shape {arr.shape}, expected {want.shape} (the second chain alone)"))
+    elif widx is not None and int(widx) != n2:
+        out.append((f"write-index-{be}", f"write_index {widx} after a chain of {n2} columns written over an existing file"))
+    return out
 
 
 def spec_oracle(c, o):
@@ -289,6 +323,10 @@ def run(tier, seed):
             o = run_impl(c, wd)
             comb = combine_case(rnd, wd)
             cases.append(c)
+            if i % 10 == 0:
+                dist["overwrite_cases"] = dist.get("overwrite_cases", 0) + 1
+                for key, what in overwrite_case(rnd, wd, i // 10):
+                    violations.append(Violation(key, what, {"overwrite_case": i // 10}))
             for key, what in spec_oracle(c, o):
                 violations.append(Violation(key, what, {"case": c}))
             want_comb = [i_ for p in comb[0] for i_ in p if i_ not in comb[1]]
